@@ -382,3 +382,46 @@ func VH_C09_close_after_unsendable_return() {
 	vQuiescent(c, "C09.unsendable.close")
 	vAssert(t.closes == 1, "C09.unsendable.transport-closed-once")
 }
+
+// A capability received in the parameters of a call - whether or not the payload has any content -
+// is imported, and when the call is over and nothing holds it any more exactly one Release with
+// count 1 goes back for it and the import entry is gone.
+func VH_C07_param_caps_released() {
+	t := &vTransport{}
+	c := vNewConn(t, nil)
+	hook := &vRecvHook{sync: true}
+	vAssume(c.exportID.next() == 0)
+	c.exports = []*expent{{client: capnp.NewClient(hook), wireRefs: 1}}
+	m := vRecvMsg()
+	call, err := m.NewCall()
+	vAssume(err == nil)
+	call.SetQuestionId(9)
+	tgt, err := call.NewTarget()
+	vAssume(err == nil)
+	tgt.SetImportedCap(0)
+	pl, err := call.NewParams()
+	vAssume(err == nil)
+	withContent := vNondetBool()
+	if withContent {
+		args, err := capnp.NewStruct(pl.Segment(), capnp.ObjectSize{DataSize: 8})
+		vAssume(err == nil && pl.SetContent(args.ToPtr()) == nil)
+	}
+	id := vNondetU32()
+	ct, err := pl.NewCapTable(1)
+	vAssume(err == nil)
+	ct.At(0).SetSenderHosted(id)
+	herr := c.handleCall(c.bgctx, call, func() {})
+	vSettle()
+	vReach("handled")
+	vAssert(herr == nil, "C07.params.call-handled")
+	vQuiescent(c, "C07.params")
+	n := 0
+	for i, rid := range t.releaseIDs {
+		if rid == id {
+			n++
+			vAssert(t.releaseCounts[i] == 1, "C07.params.release-count-is-what-was-received")
+		}
+	}
+	vAssert(n == 1, "C07.params.received-capability-released-exactly-once")
+	vAssert(c.imports[importID(id)] == nil, "C07.params.import-entry-gone")
+}
